@@ -61,10 +61,13 @@ pub struct Runner {
     pub history: usize,
     pub line_no: usize,
     pub bsei_init_with_balances: bool,
-    pub saved: Option<(Chain, bool, bool, BTreeMap<Id, (Id, Id)>)>,
+    pub saved: Option<(Chain, bool, bool, BTreeMap<Id, (Id, Id)>, Option<u128>)>,
     /// C10 ghost: (owner, nominee) per contract as the *history* of successful SetOwner /
     /// AcceptOwnership calls determines them, independent of what the contract stores
     pub ghost_roles: BTreeMap<Id, (Id, Id)>,
+    /// C15 ghost: what the reward contract should have on record, from the *bank* history alone:
+    /// its reward-denom bank balance at the last index update minus what has been paid out since
+    pub ghost_recorded: Option<u128>,
     /// E1 (magnitudes ≤ 10^18) has been left in this history
     pub e1_broken: bool,
     pub deep: bool,
@@ -85,6 +88,7 @@ impl Runner {
             bsei_init_with_balances: false,
             saved: None,
             ghost_roles: BTreeMap::new(),
+            ghost_recorded: None,
             e1_broken: false,
             deep: std::env::var("KRP_DEEP").map(|v| v == "1").unwrap_or(false),
         }
@@ -103,17 +107,19 @@ impl Runner {
             self.genesis_done = false;
             self.inst.clear();
             self.ghost_roles.clear();
+            self.ghost_recorded = None;
             self.history += 1;
             self.bsei_init_with_balances = false;
             self.e1_broken = false;
             return "ok | reset".to_string();
         }
         if let Op::Save = op {
-            self.saved = Some((self.chain.clone(), self.envelope, self.bsei_init_with_balances, self.ghost_roles.clone()));
+            self.saved = Some((self.chain.clone(), self.envelope, self.bsei_init_with_balances, self.ghost_roles.clone(), self.ghost_recorded));
             return "ok | save".to_string();
         }
         if let Op::Restore = op {
-            if let Some((c, e, b, g)) = self.saved.clone() {
+            if let Some((c, e, b, g, gr)) = self.saved.clone() {
+                self.ghost_recorded = gr;
                 self.chain = c;
                 self.envelope = e;
                 self.bsei_init_with_balances = b;
@@ -141,7 +147,11 @@ impl Runner {
                         "bsei"
                     }
                     Inst::Stsei { .. } => "stsei",
-                    Inst::Reward { .. } => "reward",
+                    Inst::Reward { .. } => {
+                        // a fresh reward contract has nothing on record
+                        self.ghost_recorded = if judged { None } else { Some(0) };
+                        "reward"
+                    }
                     Inst::Disp { .. } => "disp",
                     Inst::Reg { .. } => "reg",
                 });
@@ -222,14 +232,26 @@ impl Runner {
                 chain_post: &self.chain,
                 err: &r.err,
                 deep: self.deep,
+                ghost_recorded: self.ghost_recorded,
                 envelope: self.envelope && !self.bsei_init_with_balances && !self.e1_broken && self.chain.withdraw_addr == DISP,
             };
+            let cx_envelope = cx.envelope;
             if !self.e1_broken {
                 for vi in check_step(&cx) {
                     self.violations.push((self.history, self.line_no, vi));
                 }
             } else {
                 self.bump("ops_outside_e1");
+            }
+            // C15 ghost bookkeeping (bank history only)
+            if !cx_envelope {
+                self.ghost_recorded = None;
+            } else if let Some(g) = self.ghost_recorded {
+                if post.rw.0 != pre.rw.0 {
+                    self.ghost_recorded = Some(post.reward_bank);
+                } else if post.reward_bank < pre.reward_bank {
+                    self.ghost_recorded = Some(g.saturating_sub(pre.reward_bank - post.reward_bank));
+                }
             }
             // coverage statistics
             if let Some(q) = post.q {
